@@ -72,4 +72,38 @@ PROPS = {
         "assumptions": [],
         "explanation": "no-panic theorem on the evaluator model + exhaustive kind matrices run on the implementation under recover/watchdog and re-evaluated by the model",
     },
+    "C05": {
+        "level": "proof",
+        "cone": ["model/Eval.v", "proofs/EvalProofs.v", "props/C05.v"],
+        "trusted_base": COMMON_TB + [
+            "model/Eval.v + model/Value.v transcribe compiler.go, helper_context.go, partial_helper.go and helpers/content (reflect modelled by case analysis on the shared value family); tied to the code by the render correspondence",
+        ],
+        "assumptions": [],
+        "explanation": "theorems about error propagation in the evaluator model + failing-helper placements run on the implementation (invoked-and-failed oracle) and re-evaluated by the model",
+    },
+    "C07": {
+        "level": "proof",
+        "cone": ["model/Value.v", "model/Eval.v", "proofs/EvalProofs.v", "props/C07.v"],
+        "trusted_base": COMMON_TB + [
+            "model/Eval.v + model/Value.v transcribe compiler.go, helper_context.go, partial_helper.go and helpers/content (reflect modelled by case analysis on the shared value family); tied to the code by the render correspondence",
+        ],
+        "assumptions": [],
+        "explanation": "truthiness classification and if-chain theorems on the model + exhaustive kind matrix / truth assignments on the implementation with counting conditions",
+    },
+    "C06": {
+        "level": "proof",
+        "cone": ["gen/Tables.v", "model/Parser.v", "model/Value.v", "model/Eval.v", "proofs/ParserProofs.v", "proofs/EvalProofs.v", "props/C06.v"],
+        "trusted_base": COMMON_TB + [
+            "model/Parser.v (Pratt loop over the precedence table regenerated from parser/precedences.go) and model/Value.v (typed operator functions) transcribe the code; floats are Coq primitive floats (IEEE binary64); regexp matching is an oracle (not modelled)",
+        ],
+        "assumptions": ["combinations the README leaves open are excluded by name: bool+bool, comparison of a string with a non-string, bool with a non-bool operand"],
+        "explanation": "precedence-table and operator theorems on the model + exhaustive depth-1 and random deeper trees judged against a Go reference evaluator in three parenthesisations",
+    },
+    "C08": {
+        "level": "proof",
+        "cone": ["model/Eval.v", "proofs/EvalProofs.v", "props/C08.v"],
+        "trusted_base": COMMON_TB + ["model/Eval.v (eval_for, for_slice/for_items/for_iter, eval_stmts with the break/continue/return objects) transcribes evalForExpression and evalBlockStatement; map iteration order is the association-list order of the model and is compared only as a multiset"],
+        "assumptions": [],
+        "explanation": "loop theorems on the model + generated loop bodies judged against an element-by-element Go reference interpreter (loop unrolling) and re-evaluated by the model",
+    },
 }
